@@ -100,6 +100,9 @@ pub fn gen_case(prop: &str, seed: u64, tier: &str, _run: u64) -> Case {
             }
             let sizes: Vec<usize> = wl.contents.iter().map(|c| c.size).collect();
             let n_tasks = 2 + rng.below(3) as usize;
+            // one program in four lets writers store an already-used value again (otherwise every
+            // written value is unique)
+            let reuse_values = rng.chance(1, 4);
             let mut tasks: Vec<Vec<COp>> = vec![Vec::new(); n_tasks];
             let mut next_content = 1;
             let mut budget = 9;
@@ -113,7 +116,12 @@ pub fn gen_case(prop: &str, seed: u64, tier: &str, _run: u64) -> Case {
                     budget -= 1;
                     let k = if rng.chance(4, 5) { hot } else { rng.below(nk as u64) as usize };
                     if is_writer {
-                        if next_content < sizes.len() && rng.chance(2, 3) {
+                        if reuse_values && rng.chance(1, 3) {
+                            // write a value that is (or was) already stored: its blob may be on its
+                            // way out while this put commits (reads stay attributable by content)
+                            let c = rng.below(next_content.max(1) as u64) as usize;
+                            tasks[t].push(COp::Put { k, c, chunks: vec![sizes[c]], abort: false });
+                        } else if next_content < sizes.len() && rng.chance(2, 3) {
                             tasks[t].push(COp::Put { k, c: next_content, chunks: vec![sizes[next_content]], abort: false });
                             next_content += 1;
                         } else if rng.chance(1, 5) {
